@@ -211,6 +211,38 @@ func runLaws(res *core.CaseResult, c core.CaseDesc) {
 			}
 		}
 		law("NewTime", okN, "NewTime(%v, %v) = %v", t, actAll, nt)
+		// by name: Sum is additive over disjoint selections, the empty selection
+		// (written S{}, or left by Sub / Shared) included
+		index := am.S{"A", "B", "C", "D", "E", "F"}[:n]
+		ti := am.TimeIndex{Time: t, Index: index}
+		var x, y am.S
+		for _, nme := range index {
+			switch r.IntN(3) {
+			case 0:
+				x = append(x, nme)
+			case 1:
+				y = append(y, nme)
+			}
+		}
+		if x == nil {
+			x = am.S{}
+		}
+		if it%4 == 0 {
+			y = x.Sub(x) // empty
+		}
+		union := append(slices.Clone(x), y...)
+		law("TimeIndex.Sum/additive", ti.Sum(x)+ti.Sum(y) == ti.Sum(union) || len(union) == 0,
+			"%v: Sum(%v)=%d + Sum(%v)=%d != Sum(%v)=%d", t, x, ti.Sum(x), y, ti.Sum(y), union, ti.Sum(union))
+		law("TimeIndex.Sum/empty", ti.Sum(am.S{}) == 0, "%v.Sum(S{}) = %d, want 0", t, ti.Sum(am.S{}))
+		law("Time.Sum/Index(empty)", t.Sum(index.Index(am.S{})) == 0, "%v.Sum(index.Index(S{})) = %d, want 0 (index list %v)", t, t.Sum(index.Index(am.S{})), index.Index(am.S{}))
+		law("Time.ActiveStates/Index(empty)", len(t.ActiveStates(index.Index(am.S{}))) == 0, "%v.ActiveStates(index.Index(S{})) = %v, want none", t, t.ActiveStates(index.Index(am.S{})))
+		var wantX uint64
+		for i, nme := range index {
+			if slices.Contains(x, nme) {
+				wantX += t[i]
+			}
+		}
+		law("TimeIndex.Sum/names", ti.Sum(x) == wantX, "%v.Sum(%v) = %d want %d", t, x, ti.Sum(x), wantX)
 		inc := t.Increment(0)
 		law("Time.Increment", inc[0] == t[0]+1 && len(inc) == len(t), "%v.Increment(0) = %v", t, inc)
 		law("IsActiveTick", am.IsActiveTick(t[0]) == (t[0]%2 == 1), "IsActiveTick(%d)", t[0])
